@@ -357,18 +357,18 @@ func (a *ASPathAttr) Decode(flags PathAttrFlags, b []byte) error {
 			return asPathMalformedErr()
 		}
 		set := b[:segLen]
-		if segType == 1 {
-			a.ASSet, err = decodeUint32Set(set)
-			if err != nil {
-				return asPathMalformedErr()
-			}
-		} else if segType == 2 {
-			a.ASSequence, err = decodeUint32Set(set)
-			if err != nil {
-				return asPathMalformedErr()
-			}
-		} else {
+		if segType != 1 && segType != 2 {
 			return asPathMalformedErr()
+		}
+		asns, err := decodeUint32Set(set)
+		if err != nil {
+			return asPathMalformedErr()
+		}
+		// an AS_PATH may carry several segments of the same type, keep all
+		if segType == 1 {
+			a.ASSet = append(a.ASSet, asns...)
+		} else {
+			a.ASSequence = append(a.ASSequence, asns...)
 		}
 		b = b[segLen:]
 	}
